@@ -78,3 +78,47 @@ Proof.
   replace (pdeadline p - 0) with (pdeadline p) by lia.
   assert (0 <= pdeadline p / tp_poll p) by (apply Z.div_pos; lia). lia.
 Qed.
+
+(** ---- serial engine ---- *)
+Theorem swindow_fuel_sufficient : forall fuel p sends W T pend,
+  0 < tp_poll p ->
+  Z.of_nat (length pend) + steps_left W T (tp_poll p) <= Z.of_nat fuel ->
+  swindow fuel p sends W T pend <> WFuel.
+Proof.
+  induction fuel as [|fuel IH]; intros p sends W T pend Hp Hf.
+  - exfalso. pose proof (steps_left_pos W T (tp_poll p) Hp). cbn in Hf. lia.
+  - cbn [swindow].
+    destruct (T =? W) eqn:E1; [discriminate|]. destruct (W <? T) eqn:E2; [discriminate|].
+    apply Z.eqb_neq in E1. apply Z.ltb_ge in E2. assert (HT : T < W) by lia.
+    pose proof (steps_left_poll W T (tp_poll p) Hp HT) as SP.
+    destruct (best (lookup sends) pend 0) as [[[a i] e]|] eqn:B.
+    + pose proof (best_index _ _ _ _ _ _ B) as BI.
+      destruct (a <=? T + tp_poll p) eqn:E3.
+      * assert (HL : Z.of_nat (length (remove_nth i pend)) = Z.of_nat (length pend) - 1) by (rewrite remove_nth_length by lia; lia).
+        pose proof (steps_left_mono W T (Z.max T a) (tp_poll p) Hp ltac:(lia)) as SM.
+        destruct (e_kind e =? 1); [apply IH; [exact Hp|lia]|discriminate].
+      * apply IH; [exact Hp|lia].
+    + apply IH; [exact Hp|lia].
+Qed.
+
+Lemma srun_never_out_of_fuel : forall n p i s pend sends rs acc,
+  0 < tp_poll p -> 0 < tp_timeout p -> srun n p i s pend sends rs acc <> TOutOfFuel.
+Proof.
+  induction n as [|n IH]; intros p i s pend sends rs acc Hp Ht; cbn [srun]; [discriminate|].
+  destruct (swindow (wfuel p pend) p ((i, s) :: sends) (s + tp_timeout p) s pend) as [T pr pend'|T pend'| |] eqn:W.
+  - destruct (negb (valid_probe (tp_first p) (tp_last p) pr)); [discriminate|].
+    destruct (p_dest pr); [discriminate|apply IH; assumption].
+  - apply IH; assumption.
+  - discriminate.
+  - exfalso. revert W. apply swindow_fuel_sufficient; [exact Hp|].
+    unfold wfuel, steps_left. replace (s <=? s + tp_timeout p) with true by (symmetry; apply Z.leb_le; lia).
+    replace (s + tp_timeout p - s) with (tp_timeout p) by lia.
+    assert (0 <= tp_timeout p / tp_poll p) by (apply Z.div_pos; lia). lia.
+Qed.
+
+Theorem serial_run_never_out_of_fuel p script : serial_run p script <> TOutOfFuel.
+Proof.
+  unfold serial_run. destruct (params_ok p) eqn:P; [|discriminate]. cbn [negb].
+  unfold params_ok in P. rewrite !andb_true_iff in P. rewrite !Z.leb_le, !Z.ltb_lt in P.
+  apply srun_never_out_of_fuel; lia.
+Qed.
